@@ -1216,9 +1216,9 @@ def hist_same(m, a):
     return True
 
 
-def shrink_history(S, H, budget=60):
+def shrink_history(S, H, budget=90):
     """Greedy reduction of a history on which vita and the history oracle disagree: fewer steps, then fewer
-    rows per table, as long as the disagreement stays.  -> (H, line, answer, rendered, exps, diff) or None"""
+    rows per table, then fewer columns, as long as the disagreement stays.  -> (H, line, answer, rendered, exps, diff) or None"""
     def attempt(H2):
         ln, rend, exps = history_lines(H2, seed=4242)
         ans, _ = S.cpp([ln])
@@ -1264,6 +1264,25 @@ def shrink_history(S, H, budget=60):
                         best, d, ln, a, rend, exps, changed = cand, d2, l2, a2, r2, e2, True
                     else:
                         i += chunk
+        j = 0                                                     # fewer columns (the same one in every table)
+        while best["tables"] and j < best["tables"][0]["ncols"] and best["tables"][0]["ncols"] > 2 and used < budget:
+            T0 = best["tables"][0]
+            if j == T0["out"] or any(op in "cUX" for T in best["tables"] for op, _ in parse_hook(T["filter"])):
+                j += 1
+                continue
+            cut = lambda xs: None if xs is None else xs[:j] + xs[j + 1:]
+            tabs = [dict(T, ncols=T["ncols"] - 1, kinds=cut(T["kinds"]), rows=[cut(r) for r in T["rows"]],
+                         header=cut(T["header"]), xnames=cut(T.get("xnames")),
+                         out=(T["out"] - 1 if T["out"] is not None and T["out"] > j else T["out"]))
+                    for T in best["tables"]]
+            bc = best.get("blankcol")
+            cand = dict(best, tables=tabs, blankcol=None if bc == j else bc - 1 if bc is not None and bc > j else bc)
+            d2, l2, a2, r2, e2 = attempt(cand)
+            used += 1
+            if d2:
+                best, d, ln, a, rend, exps, changed = cand, d2, l2, a2, r2, e2, True
+            else:
+                j += 1
     return best, ln, a, rend, exps, d
 
 
